@@ -262,6 +262,19 @@ def run(ctx):
         if not res.ok:
             ctx.violation({"kind": "accessor-setup-fails", "swapper": True}, "building the layout swapper failed: " + res.describe(), {"shape": shape, "nprocs": g})
             continue
+        # arrays of exactly the swapper's advertised buffer size suffice for a walk through all its layouts (uneven extents: the
+        # gathered blocks are padded), with and without spare buffer
+        from harness import scenarios
+        walk = [["v_parallel_2d", False], ["v_parallel_1d", True], ["poloidal", False], ["mode_solve", True], ["poloidal", False],
+                ["v_parallel_2d", False], ["mode_solve", False], ["v_parallel_1d", False], ["mode_solve", True]]
+        for shp in ([7, 5, 8], [5, 7, 5]):
+            if all(a <= b for a, b in zip((g[0], g[0], g[1]), (shp[0], shp[1], shp[2]))) and g[1] <= shp[1]:
+                rw = MPI.run(n, scenarios.scn_swapper, policy="random", seed=rng.randint(0, 999), args=(shp, g, walk))
+                ctx.count(("swapper-exact-buffers", tuple(g), tuple(shp)))
+                if not rw.ok:
+                    ctx.violation({"kind": "exact-buffers-do-not-suffice", "swapper": True},
+                                  "a walk through the layouts of the layout swapper with arrays of exactly bufferSize fails on process grid %s, shape %s: %s" % (
+                                      g, shp, rw.describe()[:300]), {"nprocs": g, "shape": shp})
         for name in res.values[0]:
             cnt = np.zeros(shape, dtype=int)
             procs = None
